@@ -317,7 +317,7 @@ def judge(pr0, snap, out, sig):
 class Populated(Sub):
     name = 'populated'
     doc = 'hand-populated PRISM objects of rank 1-4: all seven calculate functions x all flag values vs loop-level definitions'
-    budget = {'quick': 400, 'thorough': 24000}
+    budget = {'quick': 400, 'thorough': 96000}
 
     def strategy(self, tier):
         return spec_strategy()
@@ -338,7 +338,7 @@ class Populated(Sub):
 class Solved(Sub):
     name = 'solved'
     doc = 'genuinely solved 2- and 3-component hard-sphere / exponential systems: same definitions on the converged object'
-    budget = {'quick': 12, 'thorough': 480}
+    budget = {'quick': 12, 'thorough': 1600}
     shrink = {'quick': False, 'thorough': True}
 
     def strategy(self, tier):
